@@ -309,7 +309,7 @@ func (c *c02Ctx) goalReached(s c02State) (bool, string) {
 	return true, ""
 }
 
-func (c *c02Ctx) faults(s c02State, thorough bool) []c02Fault {
+func (c *c02Ctx) faults(s c02State, thorough, pairs bool) []c02Fault {
 	// one clean run from this state gives the transcript lengths
 	clean := c.step(s, c02Fault{Kind: "clean"})
 	var fs []c02Fault
@@ -329,10 +329,11 @@ func (c *c02Ctx) faults(s c02State, thorough bool) []c02Fault {
 			}
 		}
 	}
-	if thorough && clean.Written[0]*clean.Written[1] <= 1500000 {
-		step := 1
-		for k := 0; k <= clean.Written[0]; k += step {
-			for k2 := 0; k2 <= clean.Written[1]; k2 += step {
+	// all cut pairs (kAB, kBA): from the scenario's initial state only, and only while the product
+	// stays affordable (the single-cut plans above are enumerated from every reachable state)
+	if thorough && pairs && clean.Written[0]*clean.Written[1] <= 400000 {
+		for k := 0; k <= clean.Written[0]; k++ {
+			for k2 := 0; k2 <= clean.Written[1]; k2++ {
 				fs = append(fs, c02Fault{Kind: "pair", K: k, K2: k2, FailAfter: -1})
 			}
 		}
@@ -396,7 +397,7 @@ func C02(args []string) {
 				} else if ok, why := ctx.goalReached(cr.Next); !ok {
 					r.Violation("C02|goal-not-reached-by-clean-session", fmt.Sprintf("scenario %s, clean session from state %s: %s", sc.Name, n.s.key(), why), c02Case{sc.Name, n.s.key(), c02Fault{Kind: "clean"}, n.path})
 				}
-				fs := ctx.faults(n.s, r.Thorough())
+				fs := ctx.faults(n.s, r.Thorough(), len(n.path) == 0)
 				core.ParallelFor(len(fs), func(i int) {
 					res := ctx.step(n.s, fs[i])
 					r.Evals.Add(1)
